@@ -43,12 +43,12 @@ def make_blobs():
     return out
 
 
-ALPHABET = ["L", "Ua55", "Ua60", "Ua31", "Un55", "Ub55", "Ua77", "Ua5v", "P", "Pn"]
+ALPHABET = ["L", "Ua55", "Ua60", "Ua31", "Un55", "Ub55", "Ua77", "Ua5v", "P", "Pn", "Pq"]
 
 
 def covered_by_history(done_ops, op, blobs, dc_now):
     """direct oracle for the second sentence of C10: must this op avoid the DC?"""
-    if op == "L" or op == "Pn":
+    if op in ("L", "Pn", "Pq"):
         return None
     if "L" in done_ops:
         return True                      # root key loaded: everything of that root key is covered
@@ -82,8 +82,15 @@ def run_history(ctx, ops, blobs, use_async=False):
                     ctx.violation("unprotect on a shared cache does not return the plaintext a fresh cache returns", {"history": ops, "op": op}, out, "done " + hx(pt))
                 if must_not_call and sim.dc_calls != n0:
                     ctx.violation("DC contacted again for a position already covered", {"history": ops, "op": op}, f"{sim.dc_calls - n0} GetKey call(s)", "0")
-            elif op in ("P", "Pn"):
-                out = sim.protect(b"data", SID_A, rk=RK if op == "P" else None, use_async=use_async)
+            elif op in ("P", "Pn", "Pq"):
+                # "Pq": the caller is not a member of the target SID, so the DC hands out the group PUBLIC key only (nothing of it
+                # may serve later calls as seed material)
+                if op == "Pq":
+                    dc.public_for = lambda sd: True
+                try:
+                    out = sim.protect(b"data", SID_A, rk=RK if op != "Pn" else None, use_async=use_async)
+                finally:
+                    dc.public_for = lambda sd: False
                 if not out.startswith("done "):
                     ctx.violation("protect on a shared cache fails", {"history": ops, "op": op}, out, "done")
                 else:
@@ -93,7 +100,7 @@ def run_history(ctx, ops, blobs, use_async=False):
                         back = s2.unprotect(bytes.fromhex(out[5:]))
                     if back != "done " + hx(b"data"):
                         ctx.violation("blob produced on a shared cache does not decrypt to the plaintext", {"history": ops, "op": op}, back, "done " + hx(b"data"))
-                if op == "P" and "L" in done and sim.dc_calls != n0:
+                if op in ("P", "Pq") and "L" in done and sim.dc_calls != n0:
                     ctx.violation("protect naming a loaded root key contacted the DC", {"history": ops}, "GetKey call", "0")
             nk = getattr(sim.log, "nkdf", 0)
             if nk > 70:
@@ -157,7 +164,7 @@ def run(ctx):
     blobs = make_blobs()
     cases = []
     depth = 5 if ctx.thorough else 4
-    small = ["L", "Ua55", "Ua60", "Un55", "Ub55", "Ua77", "Ua5v", "P", "Pn"]
+    small = ["L", "Ua55", "Ua60", "Un55", "Ub55", "Ua77", "Ua5v", "P", "Pn", "Pq"]
     n = 0
     for d in range(1, depth + 1):
         if d <= 3:
